@@ -5,6 +5,7 @@ from ..cfg import Body
 from ..report import where
 from ..facts import in_module
 from .c11 import dropped_results
+from .. import storerules as sr
 
 LEVEL = "other"
 OPS = "samyama::query::executor::operator::"
@@ -22,6 +23,10 @@ def run(ctx, F, cg):
     ctx.rule("R04a", "in DeleteOperator::next_mut a delete_node reached with detach == false is dominated by a relationship test, and a connected node leads to an Err return")
     ctx.rule("R04b", "no Result of a fallible GraphStore write is discarded by a write operator (reviewed exceptions listed with their reason)")
     ctx.rule("R04d", "every path of the MERGE operator to create_node* passes a candidate lookup (get_nodes_by_label / all_nodes / index lookup) that is not conditional on the pattern having a label")
+    ctx.rule("R04e", "WITH is a barrier: WithBarrierOperator::next_mut emits nothing before its input is exhausted (after a pulled row the only continuations are another pull or an error), so writes after WITH see all reads / writes before it")
+    sr.barrier_drains(ctx, F, cg, "R04e")
+    ctx.rule("R04f", "a helper that resolves a pattern's property map returns, on every path, a map that received the content of each input property map (content flow that never passes through a scalar): MERGE matches and creates on all the properties written in the pattern")
+    sr.map_inputs_reach_output(ctx, F, cg, "R04f")
     ctx.rule("R04c", "decisions about existing nodes (MERGE match test, constraint backfill) read the merged property view, not Node.properties alone")
     # ---- R04a ------------------------------------------------------------------------------------------
     dn = [r for p, r in F.fns.items() if "DeleteOperator as" in p and p.endswith("::next_mut")]
